@@ -471,11 +471,68 @@ def discharge(ob: Obligation, timeout_ms=10000, use_cvc5=True):
             r, who = cvc5_check(ob, timeout_ms)
             if r == "unsat":
                 ob.result, ob.backend = "discharged", who
+        if ob.result == "unknown" and len(ob.pc) > 6:
+            # last resort: the same goal from a *subset* of the hypotheses (those sharing symbols with the goal, one and two
+            # hops) - dropping hypotheses can only make a proof harder, never unsound; only `unsat` is taken
+            for hops in (1, 2):
+                sub = _slice_hyps(ob.pc, ob.goal, hops)
+                if len(sub) >= len(ob.pc):
+                    break
+                s = z3.Solver()
+                s.set("timeout", max(3000, timeout_ms // 2))
+                s.add(*sub)
+                s.add(neg)
+                try:
+                    if s.check() == z3.unsat:
+                        ob.result, ob.backend = "discharged", f"z3(sliced:{hops})"
+                        break
+                except z3.Z3Exception:
+                    pass
     if model is not None:
         ob.model = model
     ob.exact = ob.exact and not has_ufs(list(ob.pc) + [ob.goal])
     ob.time = time.time() - t0
     return ob
+
+
+def _symbols(e, cache):
+    """Names of the uninterpreted constants / functions of a term (heap and allocation bookkeeping names excluded: they occur
+    everywhere and would connect every hypothesis to every goal)."""
+    key = e.get_id()
+    if key in cache:
+        return cache[key]
+    out, todo, seen = set(), [e], set()
+    while todo:
+        t = todo.pop()
+        if t.get_id() in seen:
+            continue
+        seen.add(t.get_id())
+        if z3.is_quantifier(t):
+            todo.append(t.body())
+            continue
+        if z3.is_app(t):
+            d = t.decl()
+            if d.kind() == z3.Z3_OP_UNINTERPRETED:
+                nm = d.name()
+                if not nm.startswith(("alloc", "H_$", "tags")):
+                    out.add(nm)
+            todo.extend(t.children())
+    cache[key] = out
+    return out
+
+
+def _slice_hyps(pc, goal, hops):
+    cache = {}
+    syms = set(_symbols(goal, cache))
+    chosen = [False] * len(pc)
+    for _ in range(hops):
+        new = set()
+        for i, h in enumerate(pc):
+            if not chosen[i] and _symbols(h, cache) & syms:
+                chosen[i] = True
+                new |= _symbols(h, cache)
+        syms |= new
+    return [h for i, h in enumerate(pc) if chosen[i]]
 
 
 PORTFOLIO = [
